@@ -72,9 +72,9 @@ TABLE = {
             "random calls interleaved, loose-tile frequency by enumerating an equidistributed grid of pseudo-random answers, and "
             "the full boundary-class product of the eight range checks; boards compared with per-parameter-set fresh processes and with the same calls in the "
             "opposite order; the games written by main() compared (bisimulation) with the board gen_rnd_board returns for the same arguments.", "grid bounds", "2/C15"),
-    "C16": ("exhaustive enumeration of input files (batch alphabet x stems x renderings) through main() with an independent report parser",
+    "C16": ("exhaustive enumeration of input files (batch alphabet x stems x renderings) through main() with an independent report parser; exhaustive enumeration of rewrite histories of one input path (texts x timestamp pinned or not, depth 3, thorough 4)",
             "Every file is run through the real CLI with -s; the report is parsed independently and every field must read back to "
-            "the value of the batch result.", "report layout assumptions (fixed label width)", "2/C16"),
+            "the value of the batch result. One path is rewritten in place and re-read / re-run after every step of every rewrite history (state kept between reads).", "report layout assumptions (fixed label width)", "2/C16"),
     "C17": ("exhaustive enumeration of whole-percent parameter sets through the real CLI; injectivity by dictionary",
             "prob_to_str for all k=1..99 on every double denoting k/100 (quotient, literal, arithmetic results, neighbouring doubles), main() for every k in each position, all 99^2 pairs and a boundary product; the created "
             "path must parse back to the parameters and the map must be injective.", "enumerated products", "2/C17"),
